@@ -8,7 +8,7 @@ from l4sa.core import TRANSPARENT_CALLS
 
 CLAIMED = True
 TECHNIQUE = "static analysis over type-checked MIR: derive-shape detection of deny_unknown_fields (no __ignore variant + unknown_field calls), default-value provenance, registry cross-check (Deserialize impls vs inserted kinds vs default kinds), kind-tagged section shape, loop-exit analysis of the lossy pipelines, guarded-table extraction of the extension->format->parser tables, field-to-field provenance of RawConfig::{root,loggers}, panic-site inventory of the loading cone"
-LEVEL_TEXT = """Static decision of schema/registry/pipeline clauses (agreement of the three formats with one another and with the programmatic configuration rests on serde and the format crates and is NOT claimed): (K1) the derived Deserialize of the 14 listed config structs denies unknown fields (no __ignore field variant, unknown_field reached from both field visitors); (K2) defaults: additive->true, root level->Debug, policy kind->"compound", encoder kind->"pattern", append->true in both file appender builders and only overridden when the config field is Some, console target->Stdout / tty_only->false, fixed-window base->0, on-start-up min_size->1; (K3) every impl of config::Deserialize is inserted exactly once in Deserializers::default() under its documented kind for the matching trait, the default kinds are registered, and an unregistered kind yields Err; (K4) the kind-tagged sections remove "kind" (and "filters") and pass the remainder on, a missing kind is an error for appender/filter/trigger/roller and the default for policy/encoder; (K5) appenders_lossy's loops only exit by exhaustion, push every error, and a failed filter does not drop its appender; file loading uses build_lossy and handles both error lists; create_raw_config fails on any error and uses strict build; (K6) yaml|yml->Yaml, json->Json, toml->Toml and each variant parses with its crate's from_str; (K7) RawConfig::{root,loggers} map level->level, appenders->appenders, additive->additive, map key->name, each setter applied unconditionally before build (never skipped for some documents); (K8) no un-discharged panic site in the loading cone (inherits the time trigger's known finding D5, since TimeTrigger::new runs at load time). (K11) the refresh_rate visitor implements visit_str only; any other visit_* is a plain hand-over of its argument to it. (K5, cont.) the strict loader tests the appender error list as returned (no &mut use before is_empty); (K12) retention of the lossy build (C13.V2); (K13a-d) size/time/on-start-up trigger and roller window reach their components as configured; (K14) the type-erasing wrapper passes a section to deserialize_into untouched; (K2, cont.) an optional setter's result is the builder that is built. (K15) accessor and setter fidelity of the runtime configuration types, including: a list-valued setter only pushes/extends (no dedup, sort, retain)."""
+LEVEL_TEXT = """Static decision of schema/registry/pipeline clauses (agreement of the three formats with one another and with the programmatic configuration rests on serde and the format crates and is NOT claimed): (K1) the derived Deserialize of the 14 listed config structs denies unknown fields (no __ignore field variant, unknown_field reached from both field visitors); (K2) defaults: additive->true, root level->Debug, policy kind->"compound", encoder kind->"pattern", append->true in both file appender builders and only overridden when the config field is Some, console target->Stdout / tty_only->false, fixed-window base->0, on-start-up min_size->1; (K3) every impl of config::Deserialize is inserted exactly once in Deserializers::default() under its documented kind for the matching trait, the default kinds are registered, and an unregistered kind yields Err; (K4) the kind-tagged sections remove "kind" (and "filters") and pass the remainder on, a missing kind is an error for appender/filter/trigger/roller and the default for policy/encoder; (K5) appenders_lossy's loops only exit by exhaustion, push every error, and a failed filter does not drop its appender; file loading uses build_lossy and handles both error lists; create_raw_config fails on any error and uses strict build; (K6) yaml|yml->Yaml, json->Json, toml->Toml and each variant parses with its crate's from_str; (K7) RawConfig::{root,loggers} map level->level, appenders->appenders, additive->additive, map key->name, each setter applied unconditionally before build (never skipped for some documents); (K8) no un-discharged panic site in the loading cone (inherits the time trigger's known finding D5, since TimeTrigger::new runs at load time). (K11) the refresh_rate visitor implements visit_str only; any other visit_* is a plain hand-over of its argument to it. (K5, cont.) the strict loader tests the appender error list as returned (no &mut use before is_empty); (K12) retention of the lossy build (C13.V2); (K13a-d) size/time/on-start-up trigger and roller window reach their components as configured; (K14) the type-erasing wrapper passes a section to deserialize_into untouched; (K2, cont.) an optional setter's result is the builder that is built. (K15) accessor and setter fidelity of the runtime configuration types, including: a list-valued setter only pushes/extends (no dedup, sort, retain). (K16) AppenderConfig's Deserialize hands kind and filters from map.remove straight to deserialize_into, with no loop of its own; (K2e) interval unit table (C20.L5)."""
 LEVEL_NOTE = "Trusted: rustc MIR/callee resolution; serde derive semantics for the generated shapes; serde_yaml/serde_json/toml; typemap. cfg-disabled formats report a FormatError and are checked as such."
 EXPLANATION = """Decided: K1 deny-unknown shapes (14 structs), K2 defaults, K3 registry, K4 kind-tagged sections, K5 lossy/strict pipelines, K6 format tables, K7 field mapping, K8 loading does not panic (D5 sites reported as known findings under C16). Undecided: cross-format equivalence and equivalence with the programmatic configuration."""
 DECIDED = ["K1", "K2", "K3", "K4", "K5", "K6", "K7", "K8", "K5b a fresh filter list per appender", "K9 keys a document leaves out stand for the documented defaults (root level debug, additive true, empty lists)"]
@@ -148,6 +148,26 @@ def rule_whole_document_parsers(r, p):
     for c in g.calls():
         if (c.callee or "").endswith("::from_str"):
             r.require(deep_strip(c.arg(0)) == ("param", 2), "parses-the-source:%s" % common.role(c), fn=g, detail="parser input is the source text")
+
+
+def rule_filters_section_whole(ctx, p, cfg, rid="K16"):
+    """An appender section's `filters:` list becomes the appender's chain as it stands: AppenderConfig's Deserialize takes the
+    value out of the map and hands it to `deserialize_into` whole - serde reads a sequence front to back - so no loop of its own
+    (a `pop()`, an index walk) can reorder or thin the chain."""
+    with ctx.rule(rid, "the filters of a section are read as one sequence", cfg) as r:
+        fs = [f for path, f in p.fns.items() if "AppenderConfig" in path and path.endswith("::deserialize") and "Derive" not in (f.d.get("exp") or "") and "serde" in path]
+        if len(fs) != 1:
+            raise AnchorMissing("AppenderConfig's hand-written Deserialize not found (%d candidates)" % len(fs))
+        f = p.fn_loops(fs[0].path)
+        di = [c for c in f.calls() if (c.callee or "").endswith("Value::deserialize_into")]
+        rem = [c for c in f.calls() if (c.callee or "").endswith("BTreeMap::<K, V, A>::remove")]
+        r.require(len(di) == 2 and len(rem) == 2, "kind-and-filters-taken-out", fn=f, detail="map.remove sites %d, deserialize_into sites %d (kind, filters)" % (len(rem), len(di)))
+        whole = [c for c in di if any(x[0] == "call" and x[1].endswith("BTreeMap::<K, V, A>::remove") for x in walk(c.arg(0))) and not f.in_loop(c.block)]
+        r.require(len(whole) == len(di), "each-read-whole", fn=f, detail="both values go from map.remove(..) straight into deserialize_into, outside any loop",
+                  fail_detail="a value of the section is not handed to deserialize_into as it was taken out of the map (or is read inside a loop): the order of a list can change on the way")
+        vecs = [c.callee for c in f.calls() if (c.callee or "").startswith("alloc::vec::Vec::") and (c.callee or "").rsplit("::", 1)[-1] not in ("new",)]
+        r.require(not vecs and not f.back_edges(), "no-loop-of-its-own", fn=f, detail="no loop and no Vec operation besides the empty default",
+                  fail_detail="AppenderConfig::deserialize walks a list itself (%s%s): the chain of a file-declared appender may not be in declaration order" % (vecs, ", a loop" if f.back_edges() else ""))
 
 
 def rule_section_passed_whole(ctx, p, cfg, rid="K14"):
@@ -301,6 +321,9 @@ def run_cfg(ctx, p, cfg):
         c20.rule_integer_forms(ctx, p, cfg, "K2b")   # the same document in YAML/JSON (u64) and TOML (i64) gives the same limit
         c20.rule_size_table(ctx, p, cfg, "K2c")       # a degenerate size (unit scaling past u64) is rejected, not wrapped: unit table and checked multiplication (C20.L1/L2 re-evaluated)
         c20.rule_size_overflow(ctx, p, cfg, "K2d")
+    if "time_trigger" in feats:
+        from rules import c20 as c20_
+        c20_.rule_interval_units(ctx, p, cfg, "K2e")   # a valid document is valid in any case of its unit names (C20.L5 re-evaluated)
     with ctx.rule("K3", "registry", cfg) as r:
         d = p.fn("<config::raw::Deserializers as core::default::Default>::default")
         ins = d.calls("config::raw::Deserializers::insert")
@@ -491,6 +514,7 @@ def run_cfg(ctx, p, cfg):
 
     rule_raw_to_runtime(ctx, p, cfg, "K7")
     rule_section_passed_whole(ctx, p, cfg, "K14")
+    rule_filters_section_whole(ctx, p, cfg, "K16")
     from rules import accessors
     accessors.rule_fidelity(ctx, p, cfg, "K15")   # "agrees with the programmatic configuration": the builder methods the file path goes through (the plural setters) keep what they are given
     from rules import c13
